@@ -1,8 +1,9 @@
 (* C13 - Backup then restore reproduces the data or reports failure.
    Only property statements live here; proofs are in Proofs.v.
-   [restore_backup false] is the code as it is, [restore_backup true] the proposed repair
-   (fixes/C13_restore_reports_failures.patch); the check determines on every run which of the
-   two the current source implements (tools/props/C13.py). *)
+   [restore_backup true] is the current code (per-file failures are counted and fail the restore,
+   /repo 903522c = fixes/C13_restore_reports_failures.patch); [restore_backup false] is the previous
+   code, kept as the record of the fixed finding.  The check determines on every run which of the
+   two the source implements (tools/props/C13.py); a revert shows up as a VIOLATION. *)
 From Coq Require Import List ZArith NArith Bool Lia.
 From Arc Require Import Lib.AList Backup.Model Backup.Proofs.
 Import ListNotations.
@@ -34,7 +35,7 @@ Theorem C13_backup_flags_incomplete : forall permille F id src bk m pg bk',
 Proof. exact backup_flags_incomplete. Qed.
 Print Assumptions C13_backup_flags_incomplete.
 
-(* The repaired restore: for EVERY backup store, destination and fault set, success is
+(* The restore (current code): for EVERY backup store, destination and fault set, success is
    reported only if every (listed) file of the backup is at its original path with its content. *)
 Theorem C13_restore_reports : forall R id bk dst pg dst',
   restore_backup true R id bk dst = (ROk, pg, dst') ->
@@ -43,7 +44,7 @@ Theorem C13_restore_reports : forall R id bk dst pg dst',
 Proof. exact restore_reports_strict. Qed.
 Print Assumptions C13_restore_reports.
 
-(* The code as it is violates that: a restore whose only file cannot be written reports success
+(* The previous code (before 903522c) violated that: a restore one of whose files cannot be written reports success
    and leaves the destination empty ... *)
 Definition w_id : bytes := [98; 107; 49]%N.
 Definition w_f1 : path := [100; 98; 47; 99; 112; 117; 47; 50; 48; 50; 54; 47; 48; 49; 47; 48; 49; 47; 48; 48; 47; 97; 46; 112; 97; 114; 113; 117; 101; 116]%N.
@@ -74,7 +75,7 @@ Theorem C13_restore_swallows_errors : forall R id bk dst m,
 Proof. exact restore_swallows_errors. Qed.
 Print Assumptions C13_restore_swallows_errors.
 
-(* Strongest true statements about the code as it is (they hold for both variants):
+(* Counter and fault-set forms (they hold for both variants; for the previous code they were the strongest true statements):
    (a) success AND processed_files = total_files  =>  every backed-up file is restored;
    (b) no read/write fault on any file of the backup  =>  success, processed = total, all restored. *)
 Theorem C13_restore_reports_guarded : forall strict R id bk dst r pg dst',
